@@ -235,10 +235,11 @@ def parseObs (s : String) : Option Obs :=
   match s.splitOn " | " with
   | [rets, logs, cbs, unsent, multi, stuck] => do
     let body (pre x : String) : String := ((x.drop pre.length).toString.trimAscii).toString
-    let rets ← ((body "ret" rets).splitOn ";").mapM (fun r =>
+    let rt := body "ret" rets
+    let rets ← (if rt == "-" then some [] else (rt.splitOn ";").mapM (fun r =>
       match words r with
       | [c, code] => (idOf "c" c).map (fun id => (id, code))
-      | _ => none)
+      | _ => none))
     let lg := body "log" logs
     let logs ← (if lg == "-" then some [] else (lg.splitOn ";").mapM (fun l =>
       match words l with
@@ -273,11 +274,19 @@ def handle (line : String) : String :=
           | .ok s => predict sc s
           | .error e => e
         let j := journalOf evs
+        let tev : List TEv := evs.map words
+        let sizeOf (ptr : String) (i : Nat) : Nat :=
+          match callOfPtr sc ptr with
+          | some c => match sc.calls.find? (·.id == c) with
+            | some d => (d.msgs[i]?.map (·.size)).getD 0
+            | none => 0
+          | none => 0
+        let c08 := holdsC08 mc sc.calls j obs && closedWhenFull mc.bs mc.bb sizeOf tev && detachedGetsPut tev && timerDetachOk tev
+        let c07 := holdsC07 sc.calls j obs && putInsideSection tev
+        let c01 := holdsC01 mc sc.calls j obs && batchOnce tev && timerDetachOk tev
         let holds :=
-          if prop == "c08" then holdsC08 mc sc.calls j obs
-          else if prop == "c07" then holdsC07 sc.calls j obs
-          else if prop == "c01" then holdsC01 mc sc.calls j obs
-          else holdsC08 mc sc.calls j obs && holdsC07 sc.calls j obs && holdsC01 mc sc.calls j obs
+          if prop == "c08" then c08 else if prop == "c07" then c07 else if prop == "c01" then c01
+          else c08 && c07 && c01
         answer model holds
       | _, _, _ => "bad-op"
     | _ => "bad-op"
